@@ -125,7 +125,8 @@ def check_one(mode, pats, excl, flags, names, out, asts=None, stream='enum', ext
                             if cap is None:
                                 continue
                             out.evaluations += 1
-                            icase = bool(flags & F.IGNORECASE) and not (flags & F.CASE)
+                            # (the regex itself says whether it folds case: IGNORECASE, or Windows rules without CASE)
+                            icase = bool(rx.flags & re.IGNORECASE) or '(?si:' in rx.pattern[:8] or '(?is:' in rx.pattern[:8]
                             if not R.Matcher(cap, 'plain', 'unicode' if icase else False, '/' if mode == 'gl' else '').full((node,)):
                                 out.violation(dict(case, name=nm, problem='captured text not in the language of its group', group=gi,
                                                    captured=cap, group_text=A.render((node,)), regex=rx.pattern),
